@@ -60,7 +60,7 @@ impl Limits {
         Limits { max_states: 3_000_000, wall: Duration::from_secs(40), replay_max: 20_000, audit_depth: 2, threads: 16, max_depth: None }
     }
     pub fn thorough() -> Self {
-        Limits { max_states: 40_000_000, wall: Duration::from_secs(1500), replay_max: 200_000, audit_depth: 2, threads: 16, max_depth: None }
+        Limits { max_states: 40_000_000, wall: Duration::from_secs(3600), replay_max: 200_000, audit_depth: 2, threads: 16, max_depth: None }
     }
     pub fn for_args(a: &Args) -> Self {
         let mut l = if a.thorough() { Self::thorough() } else { Self::quick() };
